@@ -98,6 +98,38 @@ theorem C02_src_isAscending (c : Chain) :
     ∃ b, chainIsAscending c = some b ∧ (b = true ↔ (c.head? = some 1 ∧ c.Pairwise (· < ·))) :=
   ⟨_, AC.ChainTie.isAscending_tie c, C02_isAscending_iff c⟩
 
+/-- the translated `Chain.Validate` never panics and returns a nil error exactly for the sequences that
+    are addition chains in the property's sense -/
+theorem C02_src_validate (c : Chain) :
+    ∃ e, chainValidate c = some e ∧ (e = none ↔ IsChain c) := by
+  obtain ⟨e, h1, h2⟩ := AC.ChainTie.validate_tie c
+  exact ⟨e, h1, h2.trans (validate_eq_true_iff c)⟩
+
+/-- the translated `Chain.Produces(t)`: nil error exactly for chains ending at `t` -/
+theorem C02_src_produces (c : Chain) (t : Int) :
+    ∃ e, chainProduces c t = some e ∧ (e = none ↔ (IsChain c ∧ c.getLast? = some t)) := by
+  obtain ⟨e, h1, h2⟩ := AC.ChainTie.produces_tie c t
+  exact ⟨e, h1, h2.trans (C02_produces_iff c t)⟩
+
+/-- the translated `Chain.Superset(ts)`: nil error exactly for chains containing every target -/
+theorem C02_src_superset (c : Chain) (ts : List Int) :
+    ∃ e, chainSuperset c ts = some e ∧ (e = none ↔ (IsChain c ∧ ∀ t ∈ ts, t ∈ c)) := by
+  obtain ⟨e, h1, h2⟩ := AC.ChainTie.superset_tie c ts
+  exact ⟨e, h1, h2.trans (C02_superset_iff c ts)⟩
+
+/-- the translated `Chain.Program` of a valid chain returns a program (of the model's shape) that
+    evaluates back to the chain -/
+theorem C02_src_program (c : Chain) (hc : IsChain c) :
+    ∃ p, chainProgram c = some (toGs p, none) ∧ evaluate p = c := by
+  obtain ⟨r, hr, hm⟩ := AC.ChainTie.program_tie c
+  have hv := (validate_eq_true_iff c).2 hc
+  unfold validate at hv
+  cases hp : program c with
+  | ok p =>
+    rw [hp] at hm
+    exact ⟨p, by rw [hr, hm], (C02_program_evaluate c p hp).1⟩
+  | error e => rw [hp] at hv; simp at hv
+
 example : chainOps [1, 2, 4, 3, 5] 4 = some [⟨0, 2⟩, ⟨1, 3⟩] := by decide
 example : chainOps [1, 2, 3, 4, 5] 4 = some [⟨0, 3⟩, ⟨1, 2⟩] := by decide
 end Src
